@@ -147,7 +147,7 @@ def run(rep, tier, seed):
     rep.add_tlc(gres)
     items = [dict(c) for c in cases]
     rnd = random.Random(seed)
-    nrand = 300 if tier == "quick" else 3000
+    nrand = 900 if tier == "quick" else 3000
     for i in range(nrand):
         items.append({"id": 10000000 + i, "prog": rand_history(rnd, rnd.randint(5, 30)), "w1": "rand", "k1": "rand:",
                       "w2": "", "k2": "rand:", "k3": "rand:"})
